@@ -64,7 +64,7 @@ Require Import Lia.
 Require Import Calc.Base Calc.Bytecode Calc.Value Calc.FloatText Calc.Ast Calc.Resolve Calc.Compile
         Calc.VM Calc.Sem Calc.Session Calc.CorrSession Calc.SemSession Calc.SemProofs
         Calc.ExprSem Calc.ExprVM Calc.ExprCorrect Calc.ExprTop Calc.ExprAssign Calc.ExprLen Calc.ExprSession
-        Calc.LExprSem Calc.StmtSem Calc.StmtRel Calc.StmtVM Calc.StmtCorrect Calc.StmtTop Calc.StmtCheck Calc.StmtDef.
+        Calc.LExprSem Calc.StmtSem Calc.StmtRel Calc.StmtVM Calc.StmtCorrect Calc.StmtTop Calc.StmtCheck Calc.StmtDef Calc.StmtMixed.
 Open Scope Z_scope.
 
 (* ---- the full statement (open) ---- *)
@@ -686,6 +686,148 @@ Proof.
   destruct C01_builtin_machine_is_at_top_level as [c [m Hr]].
   exact (mixed_session demo_items vm_bf mc_after_first c m Hr H).
 Qed.
+
+(* ---- sessions of definitions and statements: Sem (sem_tree) against the compiled code (run_tree) ---- *)
+(* the allocation counter never goes back (so closure ids stay fresh in Sem) *)
+Theorem C01_sem_counter_monotone : forall B n t W W' r,
+  wstmt t = true -> ssem B n W t = Some (W', r) -> w_next W <= w_next W'.
+Proof. exact ssem_next_le. Qed.
+Print Assumptions C01_sem_counter_monotone.
+
+(* the two executable functions the correspondence check evaluates next to the real interpreter, on any list
+   of trees each of which is a qualifying definition or a statement of the fragment (in any order), from any
+   start at which the two sides' worlds are related: every statement to which the statement semantics gives
+   a meaning ends in sem_tree with exactly that result and world, and in run_tree with the same value or
+   error class and a related world (same global data, same output, same input left); every definition gives
+   a function on both sides and keeps the relation under the tables with one more entry each.  FN: the
+   names the session gives to functions; no expression may use them except to call them (nobs, nobe). *)
+Theorem C01_sessions_sem_vs_vm_partial : forall FN o1 o2 items B1 B2 st mc c m,
+  tabs_ok FN B1 B2 -> sem_ok B1 st -> tready B2 mc c m ->
+  wrel B1 B2 o1 o2 (wof_s st) (wof (mc_vm mc)) ->
+  Forall (item_ok2 FN) items ->
+  agree o1 o2 B1 B2 st mc items.
+Proof. exact agree_session. Qed.
+Print Assumptions C01_sessions_sem_vs_vm_partial.
+
+(* the premises hold at the start of a real session: Sem after its built-in definitions, the machine after
+   builtin.Load.  The tables name the four leaf built-ins with the values the two sides bind them to; the
+   other built-ins (exit and the generators) are listed as function names without a value, so no statement
+   of the fragment may mention them and a call of them has no meaning in ssem. *)
+Definition other_builtins : list string := ["exit"; "fromto"; "indices"; "elems"]%string.
+Definition is_leaf (nm : string) : bool := match bop_of_name nm with Some _ => true | None => String.eqb nm "read" end.
+Definition tab_of (G : list (string * value)) : ftab :=
+  {| ft_val := fun nm => if is_leaf nm then gval G nm else VNil;
+     ft_body := fun nm => if existsb (String.eqb nm) other_builtins then Some (NInt 0) else None;
+     ft_arity := fun _ => 0 |}.
+Definition sem_tab : ftab := tab_of (s_globals sem_init).
+Definition vm_tab : ftab := tab_of (v_globals (mc_vm mc_after_first)).
+Definition demo_names : list string := other_builtins ++ ["sq"; "big"; "mad"; "k"]%string.
+
+Lemma other_cases nm : existsb (String.eqb nm) other_builtins = true ->
+  nm = "exit"%string \/ nm = "fromto"%string \/ nm = "indices"%string \/ nm = "elems"%string.
+Proof.
+  unfold other_builtins. cbn [existsb].
+  destruct (String.eqb_spec nm "exit"); [auto|]. destruct (String.eqb_spec nm "fromto"); [auto|].
+  destruct (String.eqb_spec nm "indices"); [auto|]. destruct (String.eqb_spec nm "elems"); [auto|]. discriminate.
+Qed.
+
+Lemma tab_names G nm : is_bname (tab_of G) nm = true ->
+  nm = "write"%string \/ nm = "toa"%string \/ nm = "aton"%string \/ nm = "read"%string \/
+  nm = "exit"%string \/ nm = "fromto"%string \/ nm = "indices"%string \/ nm = "elems"%string.
+Proof.
+  unfold is_bname. destruct (bop_of_name nm) as [b|] eqn:Eb.
+  - intros _. destruct (bop_name_cases nm b Eb) as [[E _]|[[E _]|[E _]]]; subst nm; auto.
+  - destruct (String.eqb_spec nm "read") as [->|_]; [auto 10|]. cbn [orb tab_of ft_body].
+    destruct (existsb (String.eqb nm) other_builtins) eqn:E; [|discriminate]. intros _.
+    destruct (other_cases nm E) as [->|[->|[->| ->]]]; auto 10.
+Qed.
+
+Example C01_demo_tables_hold : tabs_ok demo_names sem_tab vm_tab.
+Proof.
+  constructor.
+  - reflexivity.
+  - reflexivity.
+  - intros g Hg. destruct (tab_names _ g Hg) as [->|[->|[->|[->|[->|[->|[->| ->]]]]]]]; reflexivity.
+  - intros nm body H. cbn [sem_tab tab_of ft_body] in H. destruct (existsb (String.eqb nm) other_builtins); [|discriminate H].
+    injection H as <-. split; [reflexivity|exists []; reflexivity].
+Qed.
+
+Example C01_sem_start_state_holds : sem_ok sem_tab sem_init.
+Proof.
+  split; [|apply closfresh_b; vm_compute; reflexivity].
+  split; [|split].
+  - intros nm b mo id Hb Hv. destruct (bop_name_cases nm b Hb) as [[E1 E2]|[[E1 E2]|[E1 E2]]]; subst nm b;
+      vm_compute in Hv; injection Hv as <- <-; eexists; eexists; vm_compute; reflexivity.
+  - intros mo id Hv. vm_compute in Hv. injection Hv as <- <-. eexists. vm_compute. reflexivity.
+  - intros nm body mo id Hb Hbody Hv. cbn [sem_tab tab_of ft_body ft_val] in Hbody, Hv.
+    destruct (existsb (String.eqb nm) other_builtins) eqn:E; [|discriminate Hbody].
+    destruct (other_cases nm E) as [->|[->|[->| ->]]]; discriminate Hv.
+Qed.
+
+Example C01_vm_start_state_holds : exists c m, tready vm_tab mc_after_first c m.
+Proof.
+  destruct C01_builtin_machine_is_at_top_level as [c [m [[Hr _] Hfp]]]. exists c, m.
+  split; [split; [exact Hr|]|exact Hfp].
+  apply bcode_b_sound; [vm_compute; reflexivity|].
+  intros nm body mo fid _ Hbody Hv. cbn [vm_tab tab_of ft_body ft_val] in Hbody, Hv.
+  destruct (existsb (String.eqb nm) other_builtins) eqn:E; [|discriminate Hbody].
+  destruct (other_cases nm E) as [->|[->|[->| ->]]]; discriminate Hv.
+Qed.
+
+Example C01_start_worlds_related : wrel sem_tab vm_tab [] [] (wof_s sem_init) (wof (mc_vm mc_after_first)).
+Proof.
+  constructor.
+  - apply gsame_keys; vm_compute; reflexivity.
+  - exists []. split; vm_compute; reflexivity.
+  - vm_compute. reflexivity.
+  - intros nm Hnm. destruct (tab_names _ nm Hnm) as [->|[->|[->|[->|[->|[->|[->| ->]]]]]]]; vm_compute; reflexivity.
+Qed.
+
+Example C01_demo_items_ok : Forall (item_ok2 demo_names) demo_items.
+Proof.
+  destruct C01_demo_with_definitions_is_covered as [H _].
+  unfold demo_items, demo_ucalls in *. cbn [app map] in *.
+  repeat match goal with
+         | H : Forall _ (_ :: _) |- _ => inversion H; subst; clear H
+         end.
+  repeat (constructor; [split; [assumption|first [reflexivity|split; [cbn; tauto|reflexivity]]]|]). constructor.
+Qed.
+
+
+(* the demonstration session, definitions included, on both sides *)
+Example C01_demo_sem_vs_vm : agree [] [] sem_tab vm_tab sem_init mc_after_first demo_items.
+Proof.
+  destruct C01_vm_start_state_holds as [c [m Hr]].
+  exact (agree_session demo_names [] [] demo_items sem_tab vm_tab sem_init mc_after_first c m
+           C01_demo_tables_hold C01_sem_start_state_holds Hr C01_start_worlds_related C01_demo_items_ok).
+Qed.
+
+(* and the statement semantics gives every one of its statements a meaning (the hypothesis of each clause of
+   agree), the compiled runs end with the same results: no tree is refused, no budget runs out *)
+Fixpoint sem_meanings (B1 : ftab) (st : sstate) (items : list item) : list (option (res value)) :=
+  match items with
+  | [] => []
+  | IStmt t :: r =>
+      match ssem B1 sem_fuel (wof_s st) t with Some (_, res) => Some res | None => None end
+      :: sem_meanings B1 (fst (sem_tree st t)) r
+  | IDef d :: r =>
+      Some (Ok (VFun 0 (s_next st)))
+      :: sem_meanings (ft_add B1 (fd_name d) (VFun 0 (s_next st)) (fd_body d) (fd_lc d)) (fst (sem_tree st (fd_tree d))) r
+  end.
+Definition unfun (o : option (res value)) : option (res value) :=
+  match o with Some (Ok (VFun _ _)) => Some (Ok (VStr "function")) | x => x end.
+
+Example C01_demo_sem_vs_vm_is_not_vacuous :
+  map unfun (sem_meanings sem_tab sem_init demo_items) =
+  map unfun (map brief (run_all mc_after_first (map item_tree demo_items))) /\
+  map unfun (sem_meanings sem_tab sem_init demo_items) =
+  [Some (Ok (VInt 10)); Some (Ok (VStr "function")); Some (Ok (VStr "function")); Some (Ok (VStr "function"));
+   Some (Ok (VStr "function")); Some (Ok (VInt 49)); Some (Ok (VInt 9)); Some (Ok (VInt 0)); Some (Ok (VInt 3));
+   Some (Ok (VArr [VBool false; VInt (-9)])); Some (Ok (VArr [VBool true; VInt (-11)])); Some (Fail ErrType);
+   Some (Ok (VInt 100)); Some (Ok (VArr [VBool false; VInt (-11)])); Some (Ok (VInt 81)); Some (Ok (VInt 23));
+   Some (Ok (VInt 101)); Some (Fail ErrZeroDiv); Some (Fail ErrIndex); Some (Fail ErrArity); Some (Fail ErrArity);
+   Some (Fail ErrZeroDiv); Some (Ok (VInt 101))].
+Proof. split; vm_compute; reflexivity. Qed.
 
 (* ---- proved: the oracle follows the language rules ---- *)
 Theorem C01_sem_binop_left_error : forall n op c l r e st st1 x,
